@@ -3,6 +3,7 @@ import ast
 import itertools
 import curtsies.fmtfuncs as ff
 from curtsies.formatstring import FmtStr
+import sgrterm
 import wire
 from wire import mk_fmt
 from props.common import chunks_for, guarded, canon_cells, PALETTE
@@ -27,7 +28,9 @@ LEVEL_NOTE = ("PROVED in Lean for all inputs of the model: equal FmtStrs hash eq
               "C19_repr_full_statement_false for the rest). DEFINITIONAL / TIE-ONLY: C19_eq and C19_str restate that "
               "__eq__ compares str(self) with str(other) - the model says what the code says, the per-run correspondence on "
               "all pool pairs carries it; the reflected `s == f` dispatch, bytes operands, CPython's hash of str and repr/eval "
-              "of string literals are CPython facts covered by the correspondence only. Trusted: Lean kernel + "
+              "of string literals are CPython facts covered by the correspondence only. The exact repr text and the FmtStr "
+              "with ZERO runs (repr '' is not an expression; the statement is about FmtStrs with at least one run) are "
+              "compared at representation level only. Trusted: Lean kernel + "
               "propext/Classical.choice/Quot.sound, the hand-written model, extract.py, the wire codec")
 ASSUMPTIONS = ["a formatted run whose text contains 'ESC [' is re-parsed by fmtstr when its repr is evaluated: open finding D27 "
                "(footprint: a run with a truthy attribute and ESC '[' in its text); generated rarely",
@@ -273,6 +276,22 @@ def canon_hash_model(reply):
     return "ok %d" % hash(wire.dec_text(reply[3:]))
 
 
+def canon_display(reply):
+    if reply.startswith("ok"):
+        cells_, final, ctls, mode = sgrterm.display(wire.dec_text(reply[3:]))
+        return ("displays", tuple(cells_), final, tuple(ctls), mode)
+    return reply
+
+
+def canon_shown(reply):
+    """what the evaluated value shows: per-character (char, effective attributes), whether it is a str or a FmtStr"""
+    if reply.startswith("ok str "):
+        return ("shown", tuple((ch, ()) for ch in wire.dec_text(reply[7:])))
+    if reply.startswith("ok fmt "):
+        return ("shown", tuple(wire.eff_cells_of_chunks(wire.dec_fmt(reply[7:]))))
+    return reply
+
+
 def canon_val(reply):
     if reply.startswith("ok str "):
         return ("str", wire.dec_text(reply[7:]))
@@ -413,7 +432,9 @@ def footprint(c, what):
     if not want_repr or not want_val or not want_repr.startswith("ok") or not want_val.startswith("ok"):
         return None
     try:
-        if impl(c) != want_repr or canon_val(impl(ev)) != canon_val(want_val):
+        if canon_val(impl(ev)) != canon_val(want_val):     # the evaluated VALUE is what D27 explains (not the repr text)
+            return None
+        if only_names_literals_plus(ast.parse(repr(mk_fmt(c["f"])), mode="eval")):
             return None
         if repr(mk_fmt(c["f"])) != repr(mk_fmt(c["f"])):
             return None
@@ -441,11 +462,20 @@ def check(ctx):
     except Exception as e:  # noqa: BLE001 - without the model nothing is attributed to D27
         ctx.note("D27 expectations unavailable: %r" % (e,))
     ctx.tie("C19/eq", [c for c in cases if c["op"] in ("eq", "eqother", "eqbytes")], line, impl)
-    ctx.tie("C19/hash", [c for c in cases if c["op"] == "hash"], line, impl, None, canon_hash_model)
-    ctx.tie("C19/str-of-derived", [c for c in cases if c["op"] == "derived"], line, impl)
+    # hash(f) being exactly hash(str(f)) and the exact bytes of str(derived) are more than the statement fixes
+    ctx.tie("C19/hash", [c for c in cases if c["op"] == "hash"], line, impl, None, canon_hash_model, level="representation")
+    der = [c for c in cases if c["op"] == "derived"]
+    ctx.tie("C19/str-of-derived", der, line, impl, level="representation")
+    # property level: what an API-derived value DISPLAYS (independent SGR reader on both sides) is what its runs say
+    ctx.tie("C19/derived-displays", der, line, impl, canon_display, canon_display)
     reprs = [c for c in cases if c["op"] == "repr"]
-    ctx.tie("C19/repr", reprs, line, impl)
-    ctx.tie("C19/evalrepr", [dict(c, op="evalrepr") for c in reprs], line, impl, canon_val, canon_val)
+    # property level: for a FmtStr with at least one run, WHAT repr(f) evaluates to (characters + displayed formatting)
+    ctx.tie("C19/evalrepr", [dict(c, op="evalrepr") for c in reprs if c["f"]], line, impl, canon_shown, canon_shown)
+    # representation level: the exact expression text, str-vs-FmtStr kind and run layout of the value, and the
+    # zero-run FmtStr (repr '' is not an expression today; the statement speaks about FmtStrs with at least one run)
+    ctx.tie("C19/repr-text", reprs, line, impl, level="representation")
+    ctx.tie("C19/evalrepr-exact", [dict(c, op="evalrepr") for c in reprs], line, impl, canon_val, canon_val,
+            level="representation")
     for c in cases:
         w = oracle(c)
         ctx.count(c, nontrivial=nontrivial(c), tag=c["op"])
